@@ -366,7 +366,9 @@ func execRoundTripInner(n *Node, sc *Scenario) *Violation {
 	want := val.Normalise(sb.Schema, t, *sc.Value)
 	var data []byte
 	if sc.Encoder == "reference" {
-		data = refcodec.Encode(sb.Schema, t, want)
+		// a conformant peer that is not this generator: map entries and message fields in
+		// the order the scenario says
+		data = refcodec.Encode(sb.Schema, t, permuteMaps(sb.Schema, t, want, sc.Order, 1))
 	} else {
 		eo := n.encode(rec, sc.Encoder, sc.Order, sc.Dirty, nil, sc.Writer)
 		if v := callViolation(&eo.Call, sc, sb.Schema, sc.Encoder); v != nil {
@@ -565,9 +567,9 @@ func runC03(c *Ctx) *Replay {
 	for _, d := range []string{"unmarshal", "decode", "mustunmarshal"} {
 		for k := 0; k < 3; k++ {
 			sc := Scenario{Kind: "wire", Prog: pk.B.Prog.ID, Mask: pk.B.Mask, PeerMask: -1, Type: pk.Type, Value: &v, Encoder: "reference", Decoder: d}
-			sc.Order = MapOrder{Strategy: simrt.OrderShuffle, Seed: c.R.Uint64()}
+			sc.Order = MapOrder{Strategy: simrt.OrderShuffle, Seed: c.R.Uint64(), Fields: k == 2}
 			if k == 0 {
-				sc.Order = MapOrder{Strategy: simrt.OrderReverse}
+				sc.Order = MapOrder{Strategy: simrt.OrderReverse, Fields: c.R.Bool()}
 			}
 			if d == "decode" {
 				sc.Sched = drawSchedule(c.R, 0, nil)
@@ -644,6 +646,23 @@ func permuteMaps(s *schema.Schema, t schema.Type, v val.Value, o MapOrder, depth
 			out.Fields[i] = mf
 			if fd := val.MsgFieldDef(d, mf.Index); fd != nil {
 				out.Fields[i].V = permuteMaps(s, fd.Type, mf.V, o, depth*31+uint64(mf.Index))
+			}
+		}
+		if n := len(out.Fields); o.Fields && n > 1 {
+			switch o.Strategy {
+			case simrt.OrderRotate:
+				out.Fields = append(out.Fields[1:], out.Fields[0])
+			case simrt.OrderShuffle:
+				pm := prng.New(o.Seed ^ (depth * 0x2545f4914f6cdd1d)).Perm(n)
+				sh := make([]val.MsgField, n)
+				for i, k := range pm {
+					sh[i] = out.Fields[k]
+				}
+				out.Fields = sh
+			default:
+				for i, j := 0, n-1; i < j; i, j = i+1, j-1 {
+					out.Fields[i], out.Fields[j] = out.Fields[j], out.Fields[i]
+				}
 			}
 		}
 	case schema.KUnion:
